@@ -16,28 +16,30 @@ Proof. cbv zeta. destruct (Z.eqb port 0); vm_compute; reflexivity. Qed.
 (** A kernel scalar read of an encoded ctypes image: same offset, width and byte order. *)
 Lemma kint_encoded kt pt kp pp fs pre post base z kl pl :
   find_leaf kp (layout kt) = Some kl -> find_leaf pp (layout pt) = Some pl -> wf_layout pt = true ->
-  base = List.length pre ->
-  lf_off kl = lf_off pl -> lf_w kl = lf_w pl -> lf_end kl = lf_end pl -> lf_n pl = 1 ->
+  base + lf_off kl = List.length pre + lf_off pl -> lf_w kl = lf_w pl ->
+  (lf_end kl = lf_end pl \/ enc LE (lf_w pl) (trunc (lf_w pl) z) = enc BE (lf_w pl) (trunc (lf_w pl) z)) ->
+  lf_n pl = 1 ->
   lookup fs (lf_path pl) = Some (VInt z) ->
   kint kt kp (pre ++ encode_struct pt fs ++ post) base = trunc (lf_w pl) z.
 Proof.
-  intros Hk Hp Hwf Hb Ho Hw He Hn Hv. unfold kint, kleaf. rewrite Hk. unfold leaf_int. subst base.
-  rewrite Ho, Hw, He.
+  intros Hk Hp Hwf Ho Hw He Hn Hv. unfold kint, kleaf. rewrite Hk. unfold leaf_int.
+  rewrite Ho, Hw.
+  assert (He' : enc (lf_end pl) (lf_w pl) (trunc (lf_w pl) z) = enc (lf_end kl) (lf_w pl) (trunc (lf_w pl) z)).
+  { destruct He as [He|He]; [now rewrite He|]. destruct (lf_end pl), (lf_end kl); auto. }
   rewrite (read_encoded pt fs pre post pp pl (lf_off pl) 0 (lf_w pl) Hwf Hp) by (unfold leaf_len; lia).
   rewrite Hv. cbn [leaf_bytes]. unfold leaf_len. rewrite Hn, Nat.mul_1_l.
   rewrite fit_exact by apply enc_length.
-  rewrite sub_all_len by apply enc_length. apply dec_enc, trunc_bound.
+  rewrite sub_all_len by apply enc_length. rewrite He'. apply dec_enc, trunc_bound.
 Qed.
 
 (** An unset field reads 0. *)
 Lemma kint_unset kt pt kp pp fs pre post base kl pl :
   find_leaf kp (layout kt) = Some kl -> find_leaf pp (layout pt) = Some pl -> wf_layout pt = true ->
-  base = List.length pre ->
-  lf_off kl = lf_off pl -> lf_w kl = lf_w pl -> lf_n pl = 1 ->
+  base + lf_off kl = List.length pre + lf_off pl -> lf_w kl = lf_w pl -> lf_n pl = 1 ->
   lookup fs (lf_path pl) = None ->
   kint kt kp (pre ++ encode_struct pt fs ++ post) base = 0%N.
 Proof.
-  intros Hk Hp Hwf Hb Ho Hw Hn Hv. unfold kint, kleaf. rewrite Hk. unfold leaf_int. subst base.
+  intros Hk Hp Hwf Ho Hw Hn Hv. unfold kint, kleaf. rewrite Hk. unfold leaf_int.
   rewrite Ho, Hw.
   rewrite (read_encoded pt fs pre post pp pl (lf_off pl) 0 (lf_w pl) Hwf Hp) by (unfold leaf_len; lia).
   rewrite Hv. cbn [leaf_bytes]. unfold leaf_len. rewrite Hn, Nat.mul_1_l.
@@ -48,11 +50,10 @@ Qed.
 (** Raw bytes of a kernel member that lies inside one ctypes leaf. *)
 Lemma kraw_encoded kt pt kp pp fs pre post base kl pl :
   find_leaf kp (layout kt) = Some kl -> find_leaf pp (layout pt) = Some pl -> wf_layout pt = true ->
-  base = List.length pre ->
-  lf_off kl = lf_off pl -> leaf_len kl = leaf_len pl ->
+  base + lf_off kl = List.length pre + lf_off pl -> leaf_len kl = leaf_len pl ->
   kraw kt kp (pre ++ encode_struct pt fs ++ post) base = leaf_bytes pl (lookup fs (lf_path pl)).
 Proof.
-  intros Hk Hp Hwf Hb Ho Hl. unfold kraw, kleaf. rewrite Hk. subst base. rewrite Ho, Hl.
+  intros Hk Hp Hwf Ho Hl. unfold kraw, kleaf. rewrite Hk. rewrite Ho, Hl.
   rewrite (read_encoded pt fs pre post pp pl (lf_off pl) 0 (leaf_len pl) Hwf Hp) by lia.
   apply sub_all_len, leaf_bytes_length.
 Qed.
@@ -60,11 +61,10 @@ Qed.
 (** a big-endian kernel scalar over a ctypes byte array (the SPI) *)
 Lemma kint_bytes kt pt kp pp fs pre post base kl pl :
   find_leaf kp (layout kt) = Some kl -> find_leaf pp (layout pt) = Some pl -> wf_layout pt = true ->
-  base = List.length pre ->
-  lf_off kl = lf_off pl -> lf_w kl = leaf_len pl ->
+  base + lf_off kl = List.length pre + lf_off pl -> lf_w kl = leaf_len pl ->
   kint kt kp (pre ++ encode_struct pt fs ++ post) base = dec (lf_end kl) (leaf_bytes pl (lookup fs (lf_path pl))).
 Proof.
-  intros Hk Hp Hwf Hb Ho Hl. unfold kint, kleaf. rewrite Hk. unfold leaf_int. subst base. rewrite Ho, Hl.
+  intros Hk Hp Hwf Ho Hl. unfold kint, kleaf. rewrite Hk. unfold leaf_int. rewrite Ho, Hl.
   rewrite (read_encoded pt fs pre post pp pl (lf_off pl) 0 (leaf_len pl) Hwf Hp) by lia.
   now rewrite sub_all_len by apply leaf_bytes_length.
 Qed.
@@ -102,7 +102,8 @@ Qed.
 Ltac side :=
   lazymatch goal with
   | |- lookup _ _ = _ => cbn [lf_path]; reflexivity
-  | |- _ => first [closed | symmetry; apply header_bytes_length | reflexivity]
+  | |- _ \/ _ => first [left; closed | right; apply mask_order_free]
+  | |- _ => first [closed | rewrite header_bytes_length; reflexivity | reflexivity]
   end.
 
 Lemma message_length r seq pid :
